@@ -3,9 +3,9 @@
    the rendered expression in several styles, the program Compile prescribes, the
    data-tree calls XPath designates and the value under the three result
    accessors.  One family per initial state so that all TLC workers are used.   *)
-EXTENDS XPathSets, Json, SequencesExt
-CONSTANTS Fams, NRand, RandKind
-VARIABLES fam, done
+EXTENDS XPathSets, Json
+CONSTANTS Fams, NRand, RandKind, NChunks
+VARIABLES fam, chunk, done
 NumOut(x) == [c |-> x.c, neg |-> x.neg, n |-> x.n, d |-> x.d]
 ReqOut(r) == [root |-> r.root, elems |-> r.elems]
 Vec(e, f) ==
@@ -18,7 +18,8 @@ Vec(e, f) ==
    t |-> v.t, vclass |-> ValClass(v), judged |-> v.j,
    rb |-> ToBool(v), rn |-> ToNum(v), rs |-> ToStr(v),
    rnJudged |-> v.j /\ ~IsOOM(ToNum(v))]
-GInit == fam \in Fams /\ done = FALSE
-GNext == /\ ~done /\ done' = TRUE /\ UNCHANGED fam
-         /\ ndJsonSerialize("vec_" \o ToString(fam) \o ".ndjson", SetToSeq({Vec(e, fam) : e \in (IF fam = 100 THEN RandFamily(RandKind, NRand) ELSE Family(fam))}))
+GInit == fam \in Fams /\ chunk \in 0..(NChunks - 1) /\ done = FALSE
+GNext == /\ ~done /\ done' = TRUE /\ UNCHANGED <<fam, chunk>>
+         /\ LET S == IF fam = 100 THEN (IF chunk = 0 THEN RandFamily(RandKind, NRand) ELSE {}) ELSE FamilyC(fam, chunk, NChunks)
+            IN S = {} \/ ndJsonSerialize("vec_" \o ToString(fam) \o "_" \o ToString(chunk) \o ".ndjson", SetToSeq({Vec(e, fam) : e \in S}))
 =============================================================================
